@@ -125,6 +125,7 @@ theorem events_reset (c : Cfg) : ∀ (f : Nat) (call : Call) (w : World) (S : Li
         run_cases hrun with grind [Call.inflight, EvReset]
       | watch wt => run_cases hrun with grind [Call.inflight, EvReset]
       | unwatch wid => run_cases hrun with grind [Call.inflight, EvReset]
+      | other k => run_cases hrun with grind [Call.inflight, EvReset]
       | raise => run_cases hrun with grind [Call.inflight, EvReset]
       | raiseBase => run_cases hrun with grind [Call.inflight, EvReset]
       | try_ body => run_cases hrun with grind [Call.inflight, EvReset]
